@@ -107,9 +107,12 @@ class C12(scen.WorldProp):
             end = a + max(c, change[1] if change else c) * scen.blow_index(N, gap, rows, 0) + 0.5
             server = mode == "inert_then_change"
             wb = [b for b in range(1, N + 1) if b not in humans]
+            # the method may be on fewer bells than the tower (covers behind it): the rhythm is the tower's, N blows
+            # to the row, whatever the stage of what is rung
+            st = rng.choice([N, N, N - 1, N - 2]) if N >= 6 else N
             sc = {"start": 1000.0, "end": end, "tower_size": N, "events": events,
                   "on_join": scen.humans_on_join(humans, "Wheatley", wb) if server else scen.humans_on_join(humans),
-                  "bot": scen.bot_cfg({"type": "plainhunt", "stage": N, "start_row": None},
+                  "bot": scen.bot_cfg({"type": "plainhunt", "stage": st, "start_row": None},
                                       user_name="Wheatley" if server else None, server_id=7 if server else None),
                   "rhythm": scen.rhythm_cfg(kind, inertia=inertia, peal_speed=ps, gap=gap, max_bells=maxb)}
             yield {"k": "world", "scenario": sc, "mode": mode, "a": a, "c": c, "change": change, "humans": humans,
@@ -141,7 +144,8 @@ class C12(scen.WorldProp):
         end = a2 + c2 * scen.blow_index(N, gap, rows2, 0) + 0.5
         sc = {"start": 1000.0, "end": end, "tower_size": N, "events": events,
               "on_join": scen.humans_on_join(humans),
-              "bot": scen.bot_cfg({"type": "plainhunt", "stage": N, "start_row": None}),
+              "bot": scen.bot_cfg({"type": "plainhunt", "stage": rng.choice([N, N, N - 1, N - 2]) if N >= 6 else N,
+                                   "start_row": None}),
               "rhythm": scen.rhythm_cfg("regression", inertia=inertia, peal_speed=ps, gap=gap, max_bells=maxb)}
         return {"k": "world", "scenario": sc, "mode": "later_touch", "a": a2, "c": c2, "change": None, "humans": humans,
                 "inertia": inertia, "rows": rows2, "N": N, "gap": gap, "t0": t0, "maxb": maxb, "t1": t1,
